@@ -156,8 +156,10 @@ class DistributedConfiguration:
         if operation == "sum":
         
             from mpi4py import MPI
-            B = numpy.zeros(A.shape, dtype=A.dtype)
-            self.comm.Reduce(A, B, op=MPI.SUM)
+            # MPI sees the memory of the array: it has to be C-ordered
+            S = numpy.ascontiguousarray(A)
+            B = numpy.zeros(S.shape, dtype=S.dtype)
+            self.comm.Reduce(S, B, op=MPI.SUM)
             return B    
                 
         else:
@@ -183,9 +185,11 @@ class DistributedConfiguration:
         if operation == "sum":
                        
             from mpi4py import MPI
-            B = numpy.zeros(A.shape, dtype=A.dtype)
-            self.comm.Allreduce(A, B, op=MPI.SUM)
-            A[:,:] = B
+            # MPI sees the memory of the array: it has to be C-ordered
+            S = numpy.ascontiguousarray(A)
+            B = numpy.zeros(S.shape, dtype=S.dtype)
+            self.comm.Allreduce(S, B, op=MPI.SUM)
+            A[...] = B
             
         else:
             raise Exception("Unknown reduction operation")      
